@@ -170,6 +170,13 @@ def run_executables(chk, work):
                           "output of --nt %d differs from --nt 1" % nt)
         sig = 0
         if fl == "asan":
+            if not os.path.exists(os.path.join(rd, "events.log")):
+                # the log file is created by the first hook event: a run that ended normally without reaching any
+                # hook (no frame selected, nothing threaded happened) has an empty history, which the monitors
+                # below judge like any other (selected frames must still have been taken)
+                open(os.path.join(rd, "events.log"), "w").close()
+                chk.counters["exe_runs_without_any_hook_event"] = \
+                    chk.counters.get("exe_runs_without_any_hook_event", 0) + 1
             v, n, sig = check_event_log(os.path.join(rd, "events.log"), c, nt)
             events += n
             for key, det in v:
